@@ -103,7 +103,8 @@ def directed(tier):
     plans = []
     n = 0
     for pos in range(4):
-        for act in ('remove-self', 'remove-next', 'raise', 'add'):
+        for act in (('remove-self', 'remove-next', 'raise', 'add') if tier == 'quick' else
+                    ('remove-self', 'remove-next', 'remove-prev', 'raise', 'add')):
             regs = []
             for i in range(5):
                 regs.append({'kind': 'port', 'port': 9, 'pm': 0xFF, 'ch': 0, 'cm': 0, 'initial': i < 4,
